@@ -39,11 +39,11 @@ import (
 func init() { groups["file-script"] = genFileScript }
 
 type c02sCase struct {
-	g       c02tCfg
-	fcfg    trzsz.VerifFileCfg
-	content []byte
-	seed    int64
-	idx     int
+	g         c02tCfg
+	fcfg      trzsz.VerifFileCfg
+	content   []byte
+	seed      int64
+	idx       int
 	cleanSent []string
 	// results
 	emits []c02sEmit
